@@ -240,7 +240,21 @@ func (f *Frame) zeroOfSort(srt string, t types.Type) Term {
 				et = a.Elem()
 			}
 		}
-		return Term{fmt.Sprintf("((as const %s) %s)", srt, f.zeroOfSort(es, et).S), srt}
+		ze := f.zeroOfSort(es, et)
+		if strings.Contains(ze.S, "!") || strings.Contains(ze.S, "nil.") {
+			// cvc5 accepts only values in constant arrays: describe the array by an axiom instead
+			if c, ok := f.vc.subCache["zeroarr:"+srt]; ok {
+				return c
+			}
+			c := f.vc.freshConst("zeroarr", srt)
+			f.vc.assumeOwned(c, T(sBool, "(forall ((k!q Int)) (! (= (select %s k!q) %s) :pattern ((select %s k!q))))", c.S, ze.S, c.S))
+			if f.vc.subCache == nil {
+				f.vc.subCache = map[string]Term{}
+			}
+			f.vc.subCache["zeroarr:"+srt] = c
+			return c
+		}
+		return Term{fmt.Sprintf("((as const %s) %s)", srt, ze.S), srt}
 	}
 	return f.vc.freshConst("zero", srt)
 }
@@ -419,7 +433,7 @@ func (f *Frame) derefAddr(p Term, elem types.Type) *Addr {
 func (f *Frame) load(a *Addr, st *State) Term {
 	switch a.Kind {
 	case aObjField, aDeref:
-		return T(a.Sort, "(select %s %s)", st.get(a.Key).S, a.Ref.S)
+		return f.vc.sel(st.get(a.Key), a.Ref, a.Sort)
 	case aCell:
 		return st.get(a.Key)
 	case aGlobal:
@@ -461,7 +475,7 @@ func (f *Frame) store(a *Addr, v Term, st *State, reach Term, p token.Pos) {
 	case aObjField, aDeref:
 		f.frameCheck(a.Key, a.Ref, st, reach, p)
 		old := st.get(a.Key)
-		st.set(a.Key, f.vc.define(a.Key, T(old.Sort, "(store %s %s %s)", old.S, a.Ref.S, v.S)))
+		st.set(a.Key, f.vc.storeTerm(a.Key, old, a.Ref, v))
 	case aCell:
 		st.set(a.Key, v)
 	case aGlobal:
@@ -500,10 +514,10 @@ func (f *Frame) seqUpdate(s Term, i Term, v Term) Term {
 	r := f.vc.freshConst("sequpd", s.Sort)
 	f.vc.assume(tEq(f.seqLenRaw(r), f.seqLenRaw(s)))
 	if f.vc.mode == ModeBV {
-		f.vc.assume(T(sBool, "(forall ((k!q (_ BitVec 64))) (! (= %s (ite (= k!q %s) %s %s)) :pattern (%s)))",
+		f.vc.assumeOwned(r, T(sBool, "(forall ((k!q (_ BitVec 64))) (! (= %s (ite (= k!q %s) %s %s)) :pattern (%s)))",
 			f.seqAt(r, Term{"k!q", bvSort(64)}).S, i.S, v.S, f.seqAt(s, Term{"k!q", bvSort(64)}).S, f.seqAt(r, Term{"k!q", bvSort(64)}).S))
 	} else {
-		f.vc.assume(T(sBool, "(forall ((k!q Int)) (! (= %s (ite (= k!q %s) %s %s)) :pattern (%s)))",
+		f.vc.assumeOwned(r, T(sBool, "(forall ((k!q Int)) (! (= %s (ite (= k!q %s) %s %s)) :pattern (%s)))",
 			f.seqAt(r, Term{"k!q", sInt}).S, i.S, v.S, f.seqAt(s, Term{"k!q", sInt}).S, f.seqAt(r, Term{"k!q", sInt}).S))
 	}
 	return r
